@@ -11,7 +11,7 @@ import MiniMoka.Lemmas.SketchLaws
 namespace MiniMoka
 namespace Props
 
-open Unsync
+open Unsync Unsync.Admit
 
 /-- **C12, victims of an admission.** For a new key `k` that finds no room and is not
 oversized (`s1 := maintain p s` is the state after the operation's own maintenance,
@@ -211,9 +211,19 @@ theorem C12_recency_order {p : Params} (hq : NoQuirks p) {s : UState}
           exact ⟨hres, by rw [hmap k' hne, if_pos hin]⟩
       · rw [hrej hdec, hnew] at he; cases he
 
+/-- **C12 on traces.** For every configuration of the current code and every history, the C12
+oracle (batch = the code's `EVICTION_BATCH_SIZE`) accepts the model's trace: the admission
+windows of C13, and every window `snap, get/contains_key, snap` taken over capacity with
+nothing expired and at most one batch of residents loses exactly the shortest prefix of the
+recency order that covers the excess (everything, if even that does not suffice). -/
+theorem C12_unsync_oracle (p : Params) (hq : NoQuirks p) (hsm : SmallSketch p) (h : List Op) :
+    Spec.oracleC12 .unsync p.cap p.ttl p.tti p.weigh Gen.UNSYNC_EVICTION_BATCH_SIZE
+      (Unsync.trace p h) = true :=
+  oracleC12_trace sketchLaws hq hsm h
+
 /-! ### non-vacuity -/
 
-open Unsync.Ex
+open Unsync.Admit.Ex
 
 /-- Victims of an admission on a weighted cache (capacity 3, weight = value; residents 1 of
 weight 2 (LRU) and 2 of weight 1; key 5 looked up three times, residents never): the
